@@ -1,6 +1,7 @@
 import Pearl.Proofs.FsLemmas
 import Pearl.Proofs.SyncProto
 import Pearl.Proofs.SyncProto2
+import Pearl.Proofs.SyncProto3
 /-
 C12: durability ordering, on the file / trace layer (L6, `Pearl/Model/Fs.lean`).
 
@@ -225,9 +226,14 @@ their append and their `should_try_fsync` (`append` / `decide`), so concurrent c
 * a candidate repair for which the bound holds after every schedule: `bounded_at_quiescence_repaired`.
 * (7) the code as it is (`recheckOnly`): (1), (4), rest and (6) carry over (`…_recheckOnly`); window (a) of (2)/(3) is closed
   (`e23_schedule_now_synced`); the bound at rest is `limit + late` (`bounded_at_quiescence_recheckOnly`) with `late ≠ 0` only
-  through window (b) (`window_b_characterised`, `window_b_witness`); and the re-check of the code is behind one exit of
-  the task body only, which `step` does not have - the code reading `…_code`, windows (c): `early_return_window_witness`,
-  `failed_sync_not_retried_witness`, `bounded_at_quiescence_code`.
+  through window (b) (`window_b_characterised`, `window_b_witness`); for a short while the re-check of the code was behind
+  one exit of the task body only, which `step` does not have - the reading `…_code` (7.6), windows (c):
+  `early_return_window_witness`, `failed_sync_not_retried_witness`, `bounded_at_quiescence_code`.
+* (7.7) THE CODE AS OF bc65670 (the commit as amended) is a third reading, `Mode.amended` of `Proofs/SyncProto3.lean`:
+  re-check after every release of the flag except after a failed sync.  `…_amended`: (1), (4), rest carry over; window (c1)
+  is closed (`window_c1_closed`, `early_return_window_closed`), the bound at rest is `limit + late` again
+  (`bounded_at_quiescence_amended`); a failed sync is not retried (`failed_sync_not_retried_amended`) but the next
+  over-limit write syncs (`sync_after_failure_amended`); window (b) is unchanged (`window_b_witness_amended`).
 -/
 namespace Pearl
 namespace SyncProto
@@ -660,8 +666,13 @@ scope, the one after a `safe.fsyncdata()` that succeeded.  The early return ("no
 sync leave the function from inside the scope: guard dropped, NO re-check, task ends.  `step` re-checks after every
 `release`.  So the theorems below come in two readings, both over the same ghost wrapper `GSt` / `gstep c`:
 * `c = false` is `step v` itself (`gstep_false_st`): the theorems named `…_recheckOnly` are about `Reach recheckOnly` / `run`;
-* `c = true` is the code: the theorems named `…_code` (about `GReach true`), and the two schedules on which the readings
-  part: `early_return_window_witness` (window (c)) and `failed_sync_not_retried_witness`.
+* `c = true` is the code AS IT WAS WHEN (7.6) WAS WRITTEN: the theorems named `…_code` (about `GReach true`), and the two
+  schedules on which the readings part: `early_return_window_witness` (window (c)) and `failed_sync_not_retried_witness`.
+
+AMENDED SINCE: the paragraph above describes `Inner::fsyncdata` as /repo had it for a short while.  In /repo at bc65670 the
+guarded scope has no early `return`: both non-failing paths (synced / not over the limit) reach the end of the scope and
+the re-check behind it; only the `?` of a failed sync leaves without.  That is a THIRD reading - neither `c = false` nor
+`c = true` - and it is the code: section (7.7), `Mode.amended` of `Pearl/Proofs/SyncProto3.lean`, theorems `…_amended`.
 -/
 
 /-! #### (7.1) flag, published size, rest -/
@@ -967,7 +978,8 @@ example : ∃ t, run recheckOnly 100 (init 20) (.write 101 :: syncScheduleR) = s
     (t.size, t.synced) = checkEffect 100 (20 + 101) 20 := by
   refine ⟨⟨121, 121, false, .finished, .idle, 0, 0, 121, 0, 0⟩, by decide, rfl, by decide⟩
 
-/-! #### (7.6) the code reading (`c = true`): re-check after a successful sync only -/
+/-! #### (7.6) the reading `c = true`: re-check after a successful sync only (/repo for a short while; NOT the code as of
+bc65670, which is (7.7); the names `…_code` are kept) -/
 
 /-- Window (c), the early return.  Two 200-byte writes both send a request (the second one before the first task has
     taken the flag).  First task: sync of 420 bytes, guard, re-check, end.  The second request starts a second task:
@@ -977,7 +989,8 @@ example : ∃ t, run recheckOnly 100 (init 20) (.write 101 :: syncScheduleR) = s
     limit 100, no failure, no request dropped (`late = 0`), `unseen = 200`.
     In the reading of `step` the same schedule is not enabled at its last event (`finish` needs the re-check first),
     and the re-check `step` inserts there finds the bytes and syncs them.
-    (The window is a few instructions wide: the drop of the two read guards before the drop of `_flag`.  Not replayed.) -/
+    (The window is a few instructions wide: the drop of the two read guards before the drop of `_flag`.  Not replayed.)
+    CLOSED in /repo at bc65670, where this exit has the re-check too: `early_return_window_closed` (7.7). -/
 theorem early_return_window_witness :
     let evs : List Ev := [.write 200, .write 200, .recv, .cas, .check, .start, .complete true, .release, .recheck, .finish,
       .recv, .cas, .check, .write 200, .release, .finish]
@@ -1115,6 +1128,308 @@ example : (grun true repaired 100 (ginit 20) [.write 200, .write 200, .recv, .ca
     .recheck, .finish, .recv, .cas, .check, .write 200, .release, .finish]).map (fun g => (g.st.quiescent, g.st.dirty, g.unseen))
     = some (true, 200, 200) := by decide +kernel
 
+/-! #### (7.7) THE CODE AS OF bc65670 (the commit as amended): re-check after every release except after a failed sync
+
+`Inner::fsyncdata` as it is now (`Pearl/Proofs/SyncProto3.lean` has the function): inside the loop the guarded scope
+computes `over_limit`, syncs only if so (`safe.fsyncdata().await?`), and ENDS on both non-failing paths (synced / not over
+the limit) - guard dropped there - and the re-check after the scope runs on both of them.  Only the `?` of a FAILED sync
+leaves the function without a re-check (and a lost compare-exchange, not reachable with one task).  That is neither
+`c = false` (`step`: re-check also after a failed sync, i.e. a failing sync retried in a loop) nor `c = true` ((7.6):
+no re-check after the early exit either).  Third reading: the wrapper `MSt` / `mstep m` with `m : Mode`;
+`Mode.everyExit` / `Mode.afterSyncOnly` are `gstep false` / `gstep true` (`mstep_ofBool`, `mrun_ofBool`), `Mode.amended`
+is the code.  The theorems named `…_amended` are about `MReach .amended`. -/
+
+/-- the first two modes of the three-valued wrapper are the two readings of (7.1)-(7.6), schedule by schedule -/
+theorem readings_embedded (c : Bool) (v : Variant) (limit : Nat) (evs : List Ev) (k : MSt) :
+    (mrun (.ofBool c) v limit k evs).map MSt.toG = grun c v limit k.toG evs :=
+  mrun_ofBool c v limit evs k
+
+/-- (1) in the amended reading -/
+theorem flag_implies_task_amended {v : Variant} (hv : v.guarded = true) {limit : Nat} {k : MSt}
+    (h : MReach .amended v limit k) (hf : k.st.flag = true) : k.st.phase.owns = true ∧ k.st.hdl = .running := by
+  have hc := mctl_reach hv h
+  have ho : k.st.phase.owns = true := by rw [← hc.flag]; exact hf
+  refine ⟨ho, hc.hdl.2 ?_⟩
+  intro hi
+  simp [hi, Phase.owns] at ho
+
+/-- at rest the flag is clear and the handle absent or finished, whatever failed before -/
+theorem flag_clear_at_rest_amended {v : Variant} (hv : v.guarded = true) {limit : Nat} {k : MSt}
+    (h : MReach .amended v limit k) (hq : k.st.quiescent = true) : k.st.flag = false ∧ k.st.hdl ≠ .running := by
+  have hc := mctl_reach hv h
+  rw [quiescent_iff] at hq
+  refine ⟨by rw [hc.flag, hq.2.1]; rfl, ?_⟩
+  intro hr
+  exact hc.hdl.1 hr hq.2.1
+
+/-- (4) in the amended reading -/
+theorem synced_size_sound_amended {v : Variant} (hv : v.publishOnlyOnSuccess = true) {limit : Nat} {k : MSt}
+    (h : MReach .amended v limit k) : k.st.synced ≤ k.st.durable ∧ k.st.durable ≤ k.st.size :=
+  ⟨(mcnt_reach hv h).synced_le, (mcnt_reach hv h).durable_le⟩
+
+/-- left alone (every later sync succeeding) the protocol comes to rest by itself in the amended reading: the loop goes
+    round at most once more -/
+theorem comes_to_rest_amended {v : Variant} (hv : v.guarded = true) (ha : v.awaitRunning = false) (limit : Nat)
+    {k : MSt} (h : MReach .amended v limit k) :
+    ∃ evs j, (∀ e ∈ evs, e.internal = true ∧ e.isFailure = false) ∧ mrun .amended v limit k evs = some j ∧
+      j.st.quiescent = true ∧ evs.length ≤ k.measure .amended limit ∧ j.st.size = k.st.size ∧ j.st.blob = k.st.blob :=
+  m_comes_to_rest hv ha limit _ k (Nat.le_refl _) (mctl_reach hv h)
+
+/-- window (c1) is CLOSED by the code as of bc65670: without a failing sync every release of the flag is followed by the
+    re-check (ghost `ahead` is true from the compare-exchange to the re-check), so no byte goes unseen -/
+theorem window_c1_closed {v : Variant} (hv : v.guarded = true) {limit : Nat} {k : MSt}
+    (h : MReachOk .amended v limit k) :
+    k.unseen = 0 ∧ ((∃ r, k.st.phase = .returned r) ∨ k.st.phase = .released → k.look .amended = true) := by
+  obtain ⟨base, evs, hq, hr⟩ := h
+  obtain ⟨_, ha, h0⟩ := amended_run hv (ctl_init base) (ahead_init base) rfl hq hr
+  refine ⟨h0, ?_⟩
+  rintro (⟨r, hp⟩ | hp) <;> simpa [Ahead, hp, MSt.look] using ha
+
+/-- (3) for the code as of bc65670: in every state at rest reached without a sync failure the un-synced bytes of the
+    active blob are at most `limit + late` - the bound of `bounded_at_quiescence_recheckOnly`; the `unseen` of
+    `bounded_at_quiescence_code` is 0 -/
+theorem bounded_at_quiescence_amended {v : Variant} (hv : v.recheckOk = true) {limit : Nat} {k : MSt}
+    (h : MReachOk .amended v limit k) (hq : k.st.quiescent = true) : k.unseen = 0 ∧ k.st.dirty ≤ limit + k.late := by
+  have h1 := mbounded_at_quiescence hv h hq
+  have h2 := unseen_zero_amended (Variant.guarded_of_recheckOk hv) h
+  exact ⟨h2, by omega⟩
+
+/-- Schedule by schedule: as long as no sync fails, the code as of bc65670 IS `step` with `recheck := true` - enabled on the
+    same schedules, ending in the same state, with the same `late` (`lateOf`), and `unseen = 0`.  (The two part at a
+    `complete false` only: `failed_sync_not_retried_amended` / `failed_sync_retried_by_step`.)  So every `…_recheckOnly`
+    theorem about failure-free schedules is a theorem about the code. -/
+theorem amended_is_step_without_failure {v : Variant} (hv : v.guarded = true) {limit base : Nat} {evs : List Ev}
+    (hok : ∀ e ∈ evs, e.isFailure = false) :
+    (mrun .amended v limit (minit base) evs).map (·.st) = run v limit (init base) evs ∧
+      ∀ k, mrun .amended v limit (minit base) evs = some k → k.late = lateOf v limit base evs ∧ k.unseen = 0 :=
+  mrun_amended_eq_run hv hok
+
+/-- … in particular the bound at rest in exactly the form of `bounded_at_quiescence_recheckOnly` -/
+theorem bounded_at_quiescence_amended_lateOf {v : Variant} (hv : v.recheckOk = true) {limit base : Nat} {evs : List Ev}
+    {k : MSt} (hok : ∀ e ∈ evs, e.isFailure = false) (h : mrun .amended v limit (minit base) evs = some k)
+    (hq : k.st.quiescent = true) : k.st.dirty ≤ limit + lateOf v limit base evs := by
+  have h1 := (bounded_at_quiescence_amended hv ⟨base, evs, hok, h⟩ hq).2
+  have h2 := ((amended_is_step_without_failure (Variant.guarded_of_recheckOk hv) hok).2 k h).1
+  omega
+
+/-- `late ≠ 0` only through window (b), which without failures is exactly what it is for `step`
+    (`window_b_characterised`): a request received while the handle is unfinished and the task is past its LAST re-check
+    (phase `done`) -/
+theorem window_b_characterised_amended {v : Variant} (hv : v.guarded = true) {limit : Nat} {k : MSt} (base : Nat)
+    (evs : List Ev) (hok : ∀ e ∈ evs, e.isFailure = false)
+    (h : mrun .amended v limit (minit base) evs = some k) (hl : k.late ≠ 0) :
+    ∃ pre post j, evs = pre ++ .recv :: post ∧ mrun .amended v limit (minit base) pre = some j ∧
+      0 < j.st.queue ∧ j.st.hdl = .running ∧ j.st.phase = .done := by
+  rcases mlate_pos_has_drop evs _ k h hl with h0 | ⟨pre, post, j, h1, h2, h3, h4, h5, _⟩
+  · exact absurd rfl h0
+  · refine ⟨pre, post, j, h1, h2, h3, h4, ?_⟩
+    have ha := (amended_run hv (ctl_init base) (ahead_init base) rfl
+      (fun e he => hok e (by rw [h1]; exact List.mem_append_left _ he)) h2).2.1
+    simp only [MSt.pastLook, MSt.look] at h5
+    cases hp : j.st.phase <;> simp_all [Ahead]
+
+/-- … so the bound of the property holds for every failure-free schedule in which no request is received in window (b) -/
+theorem bounded_at_quiescence_no_late_drop_amended {v : Variant} (hv : v.recheckOk = true) {limit base : Nat}
+    {evs : List Ev} {k : MSt} (hok : ∀ e ∈ evs, e.isFailure = false)
+    (h : mrun .amended v limit (minit base) evs = some k) (hq : k.st.quiescent = true)
+    (hnd : ∀ pre post j, evs = pre ++ .recv :: post → mrun .amended v limit (minit base) pre = some j →
+      j.st.hdl = .running → j.st.phase ≠ .done) : k.st.dirty ≤ limit := by
+  have h1 := (bounded_at_quiescence_amended hv ⟨base, evs, hok, h⟩ hq).2
+  by_cases hl : k.late = 0
+  · omega
+  · obtain ⟨pre, post, j, h2, h3, _, h5, h6⟩ :=
+      window_b_characterised_amended (Variant.guarded_of_recheckOk hv) base evs hok h hl
+    exact absurd h6 (hnd pre post j h2 h3 h5)
+
+/-- the same with the executable check `mnoLateDrop` -/
+theorem bounded_at_quiescence_noLateDrop_amended {v : Variant} (hv : v.recheckOk = true) {limit base : Nat}
+    {evs : List Ev} {k : MSt} (hok : ∀ e ∈ evs, e.isFailure = false)
+    (hnd : mnoLateDrop .amended v limit (minit base) evs = true)
+    (h : mrun .amended v limit (minit base) evs = some k) (hq : k.st.quiescent = true) : k.st.dirty ≤ limit :=
+  bounded_at_quiescence_no_late_drop_amended hv hok h hq (fun pre post j he hr hh hp =>
+    mnoLateDrop_split pre (minit base) j post (he ▸ hnd) hr ⟨hh, hp⟩)
+
+/-- with the code as of bc65670 the candidate `repaired` (awaiting worker) gives the bound of the property after every
+    failure-free schedule: window (b) closed by the worker, window (c1) by the task body
+    (compare `bounded_at_quiescence_repaired_code`, where `unseen` remained) -/
+theorem bounded_at_quiescence_repaired_amended {v : Variant} (hv : v.repairedOk = true) {limit : Nat} {k : MSt}
+    (h : MReachOk .amended v limit k) (hq : k.st.quiescent = true) : k.st.dirty ≤ limit := by
+  simp only [Variant.repairedOk, Bool.and_eq_true] at hv
+  have hv' : v.recheckOk = true := by simp [Variant.recheckOk, hv.1]
+  have h1 := (bounded_at_quiescence_amended hv' h hq).2
+  obtain ⟨base, evs, _, hr⟩ := h
+  have h2 := mlate_zero_of_awaitRunning hv.2 (k := minit base) rfl hr
+  omega
+
+/-- (2) Window (c1) on its witness.  The schedule of `early_return_window_witness` under the code as of bc65670: up to the
+    drop of the guard it is the same (second task, check "not over the limit", a 200-byte write acknowledged while the
+    flag is still set: no request) - but the guarded scope ENDS there instead of returning, so the task can NOT end
+    (`finish`, the last event of the witness, is not enabled): the only internal step is the re-check, which finds
+    200 > 100 and goes round the loop.  At rest: no un-synced byte, `late = 0`, `unseen = 0`.  The continuation is forced
+    (`msettle`). -/
+theorem early_return_window_closed :
+    let evs : List Ev := [.write 200, .write 200, .recv, .cas, .check, .start, .complete true, .release, .recheck, .finish,
+      .recv, .cas, .check, .write 200, .release, .finish]
+    let post : List Ev := [.recheck, .cas, .check, .start, .complete true, .release, .recheck, .finish]
+    let k1 : MSt := ⟨⟨620, 420, false, .running, .released, 0, 0, 420, 200, 0⟩, true, 0, 0, 0⟩
+    let k : MSt := ⟨⟨620, 620, false, .finished, .idle, 0, 0, 620, 0, 0⟩, true, 0, 0, 0⟩
+    mrun .amended recheckOnly 100 (minit 20) (evs.take 15) = some k1 ∧ k1.st.dirty = 200 ∧
+      (mrun .amended recheckOnly 100 (minit 20) (evs.take 14)).map (fun j => (j.st.phase, j.st.flag, j.look .amended)) =
+        some (.returned true, true, true) ∧
+      mstep .amended recheckOnly 100 k1 .finish = none ∧ mrun .amended recheckOnly 100 (minit 20) evs = none ∧
+      mnext .amended recheckOnly k1 = some .recheck ∧
+      mrun .amended recheckOnly 100 k1 post = some k ∧ msettle .amended recheckOnly 100 8 k1 = k ∧
+      (∀ e ∈ evs.take 15 ++ post, e.isFailure = false) ∧
+      k.st.quiescent = true ∧ k.st.dirty ≤ 100 ∧ k.late = 0 ∧ k.unseen = 0 ∧
+      (mrun .afterSyncOnly recheckOnly 100 (minit 20) evs).map (fun j => (j.st.quiescent, j.st.dirty, j.unseen)) =
+        some (true, 200, 200) := by
+  refine ⟨by decide +kernel, by decide, by decide +kernel, by decide, by decide +kernel, by decide, by decide +kernel,
+    by decide +kernel, by decide, by decide, by decide, by decide, by decide, by decide +kernel⟩
+
+/-- (3) The `?` exit is what it was.  One failed `sync_all`: the guard resets the flag, `Inner::fsyncdata` returns the
+    error from inside the guarded scope, the task logs it and ends.  At rest with 200 un-synced bytes over a limit of 100
+    and nothing scheduled: a failed sync is NOT retried (neither in a loop nor once).  Same end state as in (7.6) and as
+    before the commit; `step` (`Mode.everyExit`) does not allow the schedule.  Bytes acknowledged between the failure
+    and the drop of the guard are `unseen` (second schedule: 50 of them, and 7 more `late`). -/
+theorem failed_sync_not_retried_amended :
+    let evs : List Ev := [.write 200, .recv, .cas, .check, .start, .complete false, .release, .finish]
+    let s : St := ⟨220, 20, false, .finished, .idle, 0, 0, 20, 0, 0⟩
+    mrun .amended recheckOnly 100 (minit 20) evs = some ⟨s, false, 0, 0, 0⟩ ∧ s.quiescent = true ∧ s.dirty = 200 ∧
+      ¬ s.dirty ≤ 100 ∧
+      (mrun .amended recheckOnly 100 (minit 20) (evs.take 7)).map (mnext .amended recheckOnly) = some (some .finish) ∧
+      mrun .everyExit recheckOnly 100 (minit 20) evs = none ∧ run current 100 (init 20) evs = some s ∧
+      (mrun .amended recheckOnly 100 (minit 20) [.write 200, .recv, .cas, .check, .start, .complete false, .write 50,
+        .release, .write 7, .recv, .finish]).map (fun j => (j.st.quiescent, j.st.dirty, j.late, j.unseen)) =
+        some (true, 257, 7, 50) := by
+  refine ⟨by decide +kernel, by decide, by decide, by decide, by decide +kernel, by decide +kernel, by decide +kernel,
+    by decide +kernel⟩
+
+/-- (3), with failures, for the code as of bc65670: after ANY history (failed syncs are not retried, so rest over the
+    limit is reachable), the first write that takes the active blob over the limit leads to a sync again - request sent
+    (flag clear), task started (handle absent or finished), compare-exchange won, check passed, `sync_all` started with a
+    captured size that includes the write; when it succeeds: guard, re-check (nothing to do), end of the task, at rest with
+    no un-synced byte -/
+theorem sync_after_failure_amended {v : Variant} (hv : v.recheckOk = true) {limit : Nat} {k : MSt}
+    (h : MReach .amended v limit k) (hq : k.st.quiescent = true) {n : Nat} (hover : k.st.size + n - k.st.synced > limit) :
+    ∃ t u, mrun .amended v limit k [.write n, .recv, .cas, .check, .start] = some t ∧
+      t.st.phase = .syncing (k.st.size + n) ∧
+      mrun .amended v limit t [.complete true, .release, .recheck, .finish] = some u ∧
+      u.st.quiescent = true ∧ u.st.flag = false ∧ u.st.dirty = 0 ∧ u.late = 0 ∧ u.unseen = 0 := by
+  obtain ⟨t, u, h1, h2, _, _, h5, h6, h7, _, h9, h10, _, h12, h13⟩ :=
+    mwrite_over_limit_syncs hv (mctl_reach (Variant.guarded_of_recheckOk hv) h) hq hover
+  refine ⟨t, u, h1, h2, h5, h6, h7, ?_, h12, h13⟩
+  simp only [St.dirty, h9, h10]
+  omega
+
+/-- (4) Window (b) is UNCHANGED by the amendment: the schedule of `window_b_witness` (request sent after the task's last
+    re-check, received before `JoinHandle::is_finished`, dropped) runs under the code as of bc65670 to the same state at
+    rest: 200 un-synced bytes, limit 100, no failure, `late = 200`, `unseen = 0`.  An awaiting worker (`repaired`) does not
+    enable the `recv`. -/
+theorem window_b_witness_amended :
+    let evs : List Ev := [.write 200, .recv, .cas, .check, .start, .complete true, .release, .recheck, .write 200, .recv,
+      .finish]
+    let s : St := ⟨420, 220, false, .finished, .idle, 0, 0, 220, 200, 0⟩
+    mrun .amended recheckOnly 100 (minit 20) evs = some ⟨s, true, 0, 200, 0⟩ ∧ (∀ e ∈ evs, e.isFailure = false) ∧
+      s.quiescent = true ∧ s.dirty = 200 ∧ ¬ s.dirty ≤ 100 ∧
+      (mrun .amended recheckOnly 100 (minit 20) (evs.take 9)).map
+          (fun j => (j.st.phase, j.st.hdl, j.st.flag, j.st.queue)) = some (.done, .running, false, 1) ∧
+      (mrun .amended recheckOnly 100 (minit 20) evs).map (·.st) = run recheckOnly 100 (init 20) evs ∧
+      mrun .amended repaired 100 (minit 20) (evs.take 10) = none := by
+  refine ⟨by decide +kernel, by decide, by decide, by decide, by decide, by decide +kernel, by decide +kernel,
+    by decide +kernel⟩
+
+/-- … so (3) as stated is STILL FALSE of /repo at bc65670 -/
+theorem bounded_at_quiescence_refuted_amended :
+    ¬ ∀ k, MReachOk .amended recheckOnly 100 k → k.st.quiescent = true → k.st.dirty ≤ 100 := by
+  intro h
+  have := h ⟨⟨420, 220, false, .finished, .idle, 0, 0, 220, 200, 0⟩, true, 0, 200, 0⟩
+    ⟨20, [.write 200, .recv, .cas, .check, .start, .complete true, .release, .recheck, .write 200, .recv, .finish],
+      by decide, by decide +kernel⟩ rfl
+  exact absurd this (by decide)
+
+-- non-vacuity.  (1): the task holds the flag
+example : (⟨220, 20, true, .running, .held, 0, 0, 20, 0, 0⟩ : St).phase.owns = true ∧
+    (⟨220, 20, true, .running, .held, 0, 0, 20, 0, 0⟩ : St).hdl = .running :=
+  flag_implies_task_amended (v := recheckOnly) rfl (limit := 100)
+    (k := ⟨⟨220, 20, true, .running, .held, 0, 0, 20, 0, 0⟩, true, 0, 0, 0⟩) ⟨20, [.write 200, .recv, .cas], by decide⟩ rfl
+-- rest reached through a FAILED sync: flag clear, handle finished
+example : (⟨220, 20, false, .finished, .idle, 0, 0, 20, 0, 0⟩ : St).flag = false ∧
+    (⟨220, 20, false, .finished, .idle, 0, 0, 20, 0, 0⟩ : St).hdl ≠ .running :=
+  flag_clear_at_rest_amended (v := recheckOnly) rfl (limit := 100)
+    (k := ⟨⟨220, 20, false, .finished, .idle, 0, 0, 20, 0, 0⟩, false, 0, 0, 0⟩)
+    ⟨20, [.write 200, .recv, .cas, .check, .start, .complete false, .release, .finish], by decide +kernel⟩ rfl
+example : (⟨220, 20, true, .running, .returned true, 0, 0, 20, 0, 0⟩ : St).synced ≤ 20 :=
+  (synced_size_sound_amended (v := recheckOnly) rfl (limit := 100)
+    (k := ⟨⟨220, 20, true, .running, .returned true, 0, 0, 20, 0, 0⟩, false, 0, 0, 0⟩)
+    ⟨20, [.write 200, .recv, .cas, .check, .start, .complete false], by decide⟩).1
+-- the state of `early_return_window_closed` right after the drop of the guard: 8 more steps, `measure` is 8
+example : ∃ evs j, (∀ e ∈ evs, e.internal = true ∧ e.isFailure = false) ∧
+    mrun .amended recheckOnly 100 ⟨⟨620, 420, false, .running, .released, 0, 0, 420, 200, 0⟩, true, 0, 0, 0⟩ evs = some j ∧
+    j.st.quiescent = true ∧
+    evs.length ≤ (⟨⟨620, 420, false, .running, .released, 0, 0, 420, 200, 0⟩, true, 0, 0, 0⟩ : MSt).measure .amended 100 ∧
+    j.st.size = 620 ∧ j.st.blob = 0 :=
+  comes_to_rest_amended (v := recheckOnly) rfl rfl 100
+    ⟨20, [.write 200, .write 200, .recv, .cas, .check, .start, .complete true, .release, .recheck, .finish,
+      .recv, .cas, .check, .write 200, .release], by decide +kernel⟩
+example : (⟨⟨620, 420, false, .running, .released, 0, 0, 420, 200, 0⟩, true, 0, 0, 0⟩ : MSt).measure .amended 100 = 8 := by
+  decide
+-- the bound on the three schedules: window (c1) witness continued (0 ≤ 100 + 0), E23 (0 ≤ 100 + 0), window (b)
+-- (200 ≤ 100 + 200)
+example : (⟨620, 620, false, .finished, .idle, 0, 0, 620, 0, 0⟩ : St).dirty ≤ 100 + 0 :=
+  (bounded_at_quiescence_amended (v := recheckOnly) (k := ⟨⟨620, 620, false, .finished, .idle, 0, 0, 620, 0, 0⟩, true, 0, 0, 0⟩)
+    rfl ⟨20, [.write 200, .write 200, .recv, .cas, .check, .start, .complete true, .release, .recheck, .finish,
+      .recv, .cas, .check, .write 200, .release, .recheck, .cas, .check, .start, .complete true, .release, .recheck, .finish],
+      by decide, by decide +kernel⟩ rfl).2
+example : (⟨837, 837, false, .finished, .idle, 0, 0, 837, 0, 0⟩ : St).dirty ≤ 100 + 0 :=
+  (bounded_at_quiescence_amended (v := recheckOnly) (k := ⟨⟨837, 837, false, .finished, .idle, 0, 0, 837, 0, 0⟩, true, 0, 0, 0⟩)
+    rfl ⟨20, [.write 79, .write 369, .recv, .cas, .check, .start, .write 369, .complete true, .release, .recheck, .cas, .check,
+      .start, .complete true, .release, .recheck, .finish], by decide, by decide +kernel⟩ rfl).2
+example : (⟨420, 220, false, .finished, .idle, 0, 0, 220, 200, 0⟩ : St).dirty ≤ 100 + 200 :=
+  (bounded_at_quiescence_amended (v := recheckOnly) (k := ⟨⟨420, 220, false, .finished, .idle, 0, 0, 220, 200, 0⟩, true, 0, 200, 0⟩)
+    rfl ⟨20, [.write 200, .recv, .cas, .check, .start, .complete true, .release, .recheck, .write 200, .recv, .finish],
+      by decide, by decide +kernel⟩ rfl).2
+-- the amended reading and `step` on the E23 schedule (same end state), and the bound with `lateOf` on the window (b) one
+example : (mrun .amended recheckOnly 100 (minit 20) [.write 79, .write 369, .recv, .cas, .check, .start, .write 369,
+      .complete true, .release, .recheck, .cas, .check, .start, .complete true, .release, .recheck, .finish]).map (·.st) =
+    run recheckOnly 100 (init 20) [.write 79, .write 369, .recv, .cas, .check, .start, .write 369,
+      .complete true, .release, .recheck, .cas, .check, .start, .complete true, .release, .recheck, .finish] :=
+  (amended_is_step_without_failure (v := recheckOnly) rfl (by decide)).1
+example : run recheckOnly 100 (init 20) [.write 79, .write 369, .recv, .cas, .check, .start, .write 369,
+      .complete true, .release, .recheck, .cas, .check, .start, .complete true, .release, .recheck, .finish] =
+    some ⟨837, 837, false, .finished, .idle, 0, 0, 837, 0, 0⟩ := by decide +kernel
+example : (⟨420, 220, false, .finished, .idle, 0, 0, 220, 200, 0⟩ : St).dirty ≤ 100 + lateOf recheckOnly 100 20
+    [.write 200, .recv, .cas, .check, .start, .complete true, .release, .recheck, .write 200, .recv, .finish] :=
+  bounded_at_quiescence_amended_lateOf (v := recheckOnly) rfl
+    (k := ⟨⟨420, 220, false, .finished, .idle, 0, 0, 220, 200, 0⟩, true, 0, 200, 0⟩) (by decide) (by decide +kernel) rfl
+example : ∃ pre post j,
+    [.write 200, .recv, .cas, .check, .start, .complete true, .release, .recheck, .write 200, .recv, .finish]
+      = pre ++ Ev.recv :: post ∧ mrun .amended recheckOnly 100 (minit 20) pre = some j ∧
+    0 < j.st.queue ∧ j.st.hdl = .running ∧ j.st.phase = .done :=
+  window_b_characterised_amended (v := recheckOnly) rfl (limit := 100) 20 _ (by decide)
+    (k := ⟨⟨420, 220, false, .finished, .idle, 0, 0, 220, 200, 0⟩, true, 0, 200, 0⟩) (by decide +kernel) (by decide)
+-- a redundant request, an early exit with a write in window (c1), no request received in window (b): within the limit
+example : (⟨620, 620, false, .finished, .idle, 0, 0, 620, 0, 0⟩ : St).dirty ≤ 100 :=
+  bounded_at_quiescence_noLateDrop_amended (v := recheckOnly) rfl (base := 20)
+    (evs := [.write 200, .write 200, .recv, .cas, .check, .start, .complete true, .release, .recheck, .finish,
+      .recv, .cas, .check, .write 200, .release, .recheck, .cas, .check, .start, .complete true, .release, .recheck, .finish])
+    (k := ⟨⟨620, 620, false, .finished, .idle, 0, 0, 620, 0, 0⟩, true, 0, 0, 0⟩)
+    (by decide) (by decide +kernel) (by decide +kernel) rfl
+-- the candidate `repaired` with the task body of bc65670: the window (c1) schedule ends within the limit
+example : (⟨620, 620, false, .finished, .idle, 0, 0, 620, 0, 0⟩ : St).dirty ≤ 100 :=
+  bounded_at_quiescence_repaired_amended (v := repaired) rfl
+    (k := ⟨⟨620, 620, false, .finished, .idle, 0, 0, 620, 0, 0⟩, true, 0, 0, 0⟩)
+    ⟨20, [.write 200, .write 200, .recv, .cas, .check, .start, .complete true, .release, .recheck, .finish,
+      .recv, .cas, .check, .write 200, .release, .recheck, .cas, .check, .start, .complete true, .release, .recheck, .finish],
+      by decide, by decide +kernel⟩ rfl
+-- the state at rest after the failed sync of `failed_sync_not_retried_amended`, then a 1-byte write
+example : ∃ t u, mrun .amended recheckOnly 100 ⟨⟨220, 20, false, .finished, .idle, 0, 0, 20, 0, 0⟩, false, 0, 0, 0⟩
+      [.write 1, .recv, .cas, .check, .start] = some t ∧ t.st.phase = .syncing 221 ∧
+      mrun .amended recheckOnly 100 t [.complete true, .release, .recheck, .finish] = some u ∧
+      u.st.quiescent = true ∧ u.st.flag = false ∧ u.st.dirty = 0 ∧ u.late = 0 ∧ u.unseen = 0 :=
+  sync_after_failure_amended (v := recheckOnly) rfl
+    ⟨20, [.write 200, .recv, .cas, .check, .start, .complete false, .release, .finish], by decide +kernel⟩ rfl
+    (by decide)
+
 end SyncProto
 end Pearl
 
@@ -1132,29 +1447,45 @@ NOT YET PROVED / outside the model (sync request protocol):
   `limit + late` (`bounded_at_quiescence_recheckOnly`), `late ≠ 0` only through a `recv` in that window
   (`window_b_characterised`), `limit` when there is none (`bounded_at_quiescence_no_late_drop`); an awaiting worker closes
   it (`late_zero_of_awaitRunning`, `bounded_at_quiescence_repaired`).
-* `step` with `recheck := true` is NOT the code on three exits of `Inner::fsyncdata`: the re-check of the code follows a
-  successful `safe.fsyncdata()` only; the early return ("not over the limit"), the `?` of a failed sync and a lost
-  compare-exchange leave the function without it, `step` re-checks after every `release`.  `Model/SyncProto.lean` was
-  left as it is (its definitions are not to be changed); the code reading is `gstep true` of `Proofs/SyncProto2.lean`
-  (ghost `afterSync`), `gstep false` is `step` (`gstep_false_st`).  Consequences, all proved in the code reading:
-  (c1) a write acknowledged between an early-return check and the drop of the guard is neither requested nor
-  re-checked (`early_return_window_witness`; a window of a few instructions, needs a redundant request: two writes over
-  the limit before the first task takes the flag); (c2) a failed sync is not retried, the state at rest after it is over
-  the limit as before the commit (`failed_sync_not_retried_witness`; `step` retries at once, `failed_sync_retried_by_step`),
-  and the next write over the limit does lead to a sync (`sync_after_failure_code`); the bound is
-  `limit + late + unseen` (`bounded_at_quiescence_code`, `window_b_characterised_code`, `window_c_characterised_code`);
-  the candidate `repaired` closes (b) only (`bounded_at_quiescence_repaired_code`).  `Tie/C12.lean`
-  (`background_sync_shape`) checks the presence of the loop / inner scope / re-check after the release, not which exits
-  reach it.  `bounded_at_quiescence_repaired` and the `…_recheckOnly` theorems are about `step`, i.e. about a task body
-  that re-checks after every exit.
+* WHICH READING IS THE CODE.  /repo at bc65670 (the commit as amended; `Inner::fsyncdata` read again for (7.7)) is the
+  THIRD reading, `Mode.amended` of `Proofs/SyncProto3.lean` (`mstep .amended`, theorems `…_amended`): the re-check follows
+  every release of the flag - after a sync that succeeded AND after "not over the limit" - EXCEPT the release by the `?`
+  of a failed sync (and a lost compare-exchange, which releases nothing and is not reachable with one task).
+  It is NOT `step` with `recheck := true` (= `gstep false` = `Mode.everyExit`, theorems `…_recheckOnly`), which also
+  re-checks after a failed sync, i.e. retries a failing sync in a loop (`failed_sync_retried_by_step`); and it is NOT
+  `gstep true` (= `Mode.afterSyncOnly`, theorems `…_code`, section (7.6)), which /repo was for a short while: no re-check
+  after the early exit either.  `Model/SyncProto.lean` was left as it is (its definitions are not to be changed); the
+  three readings are modes of one wrapper and the first two are the old wrapper (`readings_embedded`).
+  Proved for the code as of bc65670: (1) `flag_implies_task_amended`, `flag_clear_at_rest_amended`, (4)
+  `synced_size_sound_amended`, rest `comes_to_rest_amended`; window (c1) is CLOSED (`window_c1_closed`: `unseen = 0` and the
+  re-check ahead of every release, for failure-free schedules; `early_return_window_closed`: the witness schedule cannot end
+  without the re-check and ends at rest with no un-synced byte); the bound at rest after a failure-free schedule is
+  `limit + late` (`bounded_at_quiescence_amended`, `bounded_at_quiescence_amended_lateOf`); on failure-free schedules the
+  code IS `step` (`amended_is_step_without_failure`); `late ≠ 0` only through a `recv` in window (b)
+  (`window_b_characterised_amended`), `limit` when there is none (`bounded_at_quiescence_no_late_drop_amended`) and
+  `limit` with an awaiting worker (`bounded_at_quiescence_repaired_amended`).  STILL FALSE: `bounded_at_quiescence` as
+  stated - window (b) is unchanged (`window_b_witness_amended`, `bounded_at_quiescence_refuted_amended`).  With failures:
+  (c2) a failed sync is not retried, the state at rest after it is over the limit as before the commit
+  (`failed_sync_not_retried_amended`), and the next write over the limit does lead to a sync
+  (`sync_after_failure_amended`).  No bound at rest is claimed for schedules with a failed sync (there is none: the
+  failed sync's bytes stay un-synced until the next over-limit write).
+* The reading of (7.6) (`…_code`, `gstep true`; NOT the code any more): (c1) a write acknowledged between an early-return
+  check and the drop of the guard is neither requested nor re-checked (`early_return_window_witness`); (c2) as above
+  (`failed_sync_not_retried_witness`, `sync_after_failure_code`); the bound is `limit + late + unseen`
+  (`bounded_at_quiescence_code`, `window_b_characterised_code`, `window_c_characterised_code`); the candidate `repaired`
+  closes (b) only (`bounded_at_quiescence_repaired_code`).  `Tie/C12.lean` (`background_sync_shape`) checks the presence of
+  the loop / inner scope / re-check after the release, not which exits reach it.  `bounded_at_quiescence_repaired` and the
+  `…_recheckOnly` theorems are about `step`, i.e. about a task body that re-checks after every exit; for failure-free
+  schedules that is the code as of bc65670 (`amended_is_step_without_failure`: the two differ only after a
+  `complete false`).
 * `late` is accounted at the drop: all bytes appended since the last re-check are given up when ONE request is dropped
   in the window, also when a second request of the same window survives and is served (then `late` is reset by the
   capture of that sync, so the bound at rest is not affected, only the intermediate value is an over-approximation).
-* Neither window (b) nor (c1) could be replayed on the library: the I/O hook has no pause point between the guard's
+* Neither window (b) nor (c1, closed since) could be replayed on the library: the I/O hook has no pause point between the guard's
   `Drop` / the re-check and the end of the task.
 * Liveness is stated as "the internal steps are enabled and every internal schedule has at most `measure` steps"
   (`comes_to_rest`, `sync_without_client_action_partial`, `sync_after_failure`; with the re-check `measureR`:
-  `comes_to_rest_recheck`, `comes_to_rest_code`, `sync_after_failure_recheckOnly`); fairness of the tokio scheduler is
+  `comes_to_rest_recheck`, `comes_to_rest_code`, `comes_to_rest_amended`, `sync_after_failure_recheckOnly`); fairness of the tokio scheduler is
   assumed, not modelled.  For `step` with the re-check only safety and "comes to rest when every later sync succeeds" are
   proved (a sync that fails for ever is retried for ever by `step`; not by the code).
 * Not modelled here: the explicit `Storage::fsyncdata`, `close_active_blob` and `restore_active_blob` (they sync the
